@@ -171,6 +171,7 @@ def run(tier: str, seed: int) -> int:
         for rev in (True, False):
             for sch in ("one", "all"):
                 cfgs.append(("a", pats, "ab", "s0", "needrev", "forest", sch, rev))
+    cfgs = list(dict.fromkeys(cfgs))  # the campaign already contains some of the reverse-needing configurations
     res = pmap(search_job, cfgs, procs=16, chunk=2)
     straces = [r for r in res if r["events"]]
     for r in straces:
